@@ -272,6 +272,7 @@ def run(ctx):
 
 
     __import__('harness.props.genobjects', fromlist=['x']).check_propagator_object(ctx)   # regenerated propagator OBJECT vs /repo (work package 13)
+    __import__('harness.props.genobjects_inst', fromlist=['x']).check_propagator_instance(ctx)   # the object INSTANTIATED with the grid model, at Float, every call vs /repo (work package 16)
 
 
 def shrink(cfg, ap, ops, bad):
